@@ -292,7 +292,16 @@ impl Ctx {
     /// Pick the work size for the current tier.
     pub fn scale(&self, quick: u64, thorough: u64) -> u64 {
         match self.tier {
-            Tier::Quick => quick,
+            // The quick counts written in the modules were sized on a heavily shared machine; on the
+            // idle 16-core box they finish in 1-5 s, so the quick tier does QUICK_MULT times that work
+            // (still fixed work, never above the thorough size).
+            Tier::Quick => {
+                if quick >= thorough {
+                    quick
+                } else {
+                    (quick.saturating_mul(quick_mult())).min(thorough)
+                }
+            }
             Tier::Thorough => thorough,
         }
     }
@@ -659,6 +668,12 @@ impl Ctx {
 }
 
 pub static INCONCLUSIVE: AtomicI32 = AtomicI32::new(0);
+
+/// Work multiplier of the quick tier (see `Ctx::scale`); `VCHECK_QUICK_MULT` overrides it.
+pub fn quick_mult() -> u64 {
+    static M: std::sync::OnceLock<u64> = std::sync::OnceLock::new();
+    *M.get_or_init(|| std::env::var("VCHECK_QUICK_MULT").ok().and_then(|s| s.parse().ok()).filter(|m| *m >= 1).unwrap_or(4))
+}
 
 /// Conservative distinct counter for dense sweeps (10^7..10^10 points) where a hash set of every case
 /// is not feasible: a 2^27-bit bitmap indexed by the case fingerprint. The number of set bits is a
